@@ -26,7 +26,13 @@ RULE = ('a FIXED corpus of programs (hand-written snippets covering every node t
         'norm=True. After EVERY successful step: ast.parse(root.src) must equal the live tree in structure, contexts and all '
         'positions (CPython is the judge). For single-node replacements the Lean model (1-D splice + sub-tree replacement) '
         'predicts the position of every other node and is compared with pfst; the proved well-formedness checker wfT is run '
-        'on pfst\'s post-state. distinct = distinct (program, step); non-trivial = the edit succeeded and changed the source')
+        'on pfst\'s post-state. A second, deterministic product sweep (harness/c01_targets.py) puts every element of a per-kind '
+        'alphabet (underscore / multi-byte / parenthesised / starred / keyword forms) at every position of ~140 slice container '
+        'shapes (every entry of _PUT_SLICE_HANDLERS incl. empty and tight forms such as `lambda: 0`, `lambda*a: 0`, `f()`, '
+        '`class C: pass`), deletes every span, puts two elements at once, continues with a second step, and runs every '
+        'statement-list operation on blocks whose statements carry trailing semicolons, comments and multi-byte text in '
+        'multi-line, joined and header-line layouts; same CPython judge. distinct = distinct (program, step) or product case; '
+        'non-trivial = the edit succeeded and changed the source')
 TRUSTED = ['modelled (C01b, Pfst/Sep.lean, tied by harness/c01b.py): FST._trail_sep, _maybe_ins_sep, _is_delimited_seq, '
            '_maybe_add_singleton_comma, _fix_Tuple / _fix_undelimited_seq / _delimit_node (source effect; tree decisions '
            '"enclosed by parents / unparenthesised NamedExpr" and element pars() are inputs), _fix_joined_alnums (\\w for '
@@ -281,6 +287,24 @@ def sweep(ctx):
                 sig = f'C01|{r["sig"][0]}|{r["sig"][1]}|{r["sig"][2]}|{r["cls"]}'
                 ctx.fail(sig, f'{r["op"]} at {r["sig"][1]} ({r["sig"][2]}): {r["fail"][:300]}', r['witness'])
     ctx.notes['successful_edits'] = n
+    # targeted product sweep (deterministic): every slice container shape x position x element alphabet (+ a second step on
+    # the edited container), statement blocks with trailing semicolons / comments / multi-byte text x every block operation
+    import c01_targets
+    tcases = c01_targets.container_cases(thorough=not q) + c01_targets.block_cases()
+    tn = 0
+    for lst in pmap(c01_targets.run_case, tcases):
+        for r in lst:
+            if 'setup_error' in r:
+                ctx.brk('harness', 'c01_targets set-up', str(r)[:200])
+            elif 'raised' in r:
+                ctx.tally('target_raised', f"{r['cls']}.{r['field']}:{r['raised']}")
+            else:
+                tn += 1
+                ctx.count(('t', tuple(r['case']), r['op'], r.get('start'), r.get('stop')), True)
+                ctx.tally('target_op', f"{r['cls']}.{r['field']}")
+                if 'fail' in r:
+                    ctx.fail(c01_targets.signature(r), f"{r['op']} on {r['cls']}.{r['field']} of {r['src']!r} -> {r.get('after')!r}: {r['fail'][:200]}", r)
+    ctx.notes['targeted_successful_ops'] = tn
     # witnesses of REPAIRED findings are regression inputs: a 'fixed' entry suppresses nothing, so a witness that fails again
     # (repair reverted or not yet applied) is reported under its own signature
     import framework
@@ -365,6 +389,12 @@ def replay(ctx, data):
     from fst import FST
     w = data.get('witness')
     if not w:
+        return
+    if 'case' in w:                 # a witness of the targeted product sweep
+        import c01_targets
+        d = c01_targets.replay(w)
+        if d:
+            ctx.fail('replay', d, w)
         return
     if 'history' not in w:          # a witness of the separator / delimiter correspondence
         import c01b
